@@ -28,7 +28,7 @@ FRACS = [0.25, 0.4, 0.6, 0.75]
 CATS_TAKE = [(4, "within"), (2, "exact"), (3, "beyond"), (1, "zero"),
              (1, "neg"), (2, "float"), (2, "inf"), (2, "none"), (1, "ninf")]
 CATS_CUT = [(4, "within"), (2, "exact"), (3, "beyond"), (1, "zero"),
-            (1, "neg"), (2, "float")]
+            (1, "neg"), (2, "float"), (1, "fraction")]
 class _NoIter(object):
   """ Not iterable although the attribute exists. """
   __iter__ = None
@@ -372,6 +372,9 @@ class _Ctx(object):
       k = r % (base + 3)
       v = k + FRACS[r % 4]
       return -v if r == 7 else v
+    if cat == "fraction":      # a real count that is not a float instance
+      from fractions import Fraction
+      return Fraction(3 * (r % (base + 3)) + (1 if r % 2 else 2), 3)
     if cat == "inf":
       return math.inf if (allow_inf and rem is not None) else base
     if cat == "ninf":
